@@ -275,7 +275,7 @@ def _r12e(cx, mk_line):
                 return "SEP" if is_name(a[0], sep) else "UNKNOWN"
             if m == "extend" and len(a) == 1:
                 loops = enclosing_loops(st)
-                return "CELL" if loops and is_name(a[0], norm(loops[0].target)) and is_name(loops[0].iter, cells) else "UNKNOWN"
+                return "CELL" if loops and _iterates_cells(loops[0], cells, a[0]) else "UNKNOWN"
             return "UNKNOWN"
         if isinstance(st, ast.AugAssign) and is_name(st.target, line):
             return "UNKNOWN"
@@ -288,8 +288,18 @@ def _r12e(cx, mk_line):
     for msg, pth in res.violations[:3]:
         cx.ob("R12e", mk_line, False, f"{msg}; path through lines {pth[-10:]}", stmt="row language: " + msg[:50])
     loops = [l for l in walk_local(mk_line) if isinstance(l, ast.For)]
-    ok = len(loops) == 1 and is_name(loops[0].iter, cells) and not any(isinstance(x, (ast.Continue, ast.Break)) for x in ast.walk(loops[0]))
+    ok = len(loops) == 1 and _iterates_cells(loops[0], cells, None) and not any(isinstance(x, (ast.Continue, ast.Break)) for x in ast.walk(loops[0]))
     cx.ob("R12e", loops[0] if loops else mk_line, ok, "every cell of the row is placed, in order" if ok else "the row builder skips or reorders cells")
+
+
+def _iterates_cells(loop, cells, elem):
+    """`for x in cells` or `for i, x in enumerate(cells)`; elem (if given) must be the element variable x."""
+    if not isinstance(loop, ast.For):
+        return False
+    it, tgt = loop.iter, loop.target
+    if isinstance(it, ast.Call) and call_name(it) == "enumerate" and len(it.args) == 1 and not it.keywords and isinstance(tgt, ast.Tuple) and len(tgt.elts) == 2:
+        it, tgt = it.args[0], tgt.elts[1]
+    return is_name(it, cells) and isinstance(tgt, ast.Name) and (elem is None or is_name(elem, tgt.id))
 
 
 def c_make_table_line(it, e, path):
@@ -343,6 +353,9 @@ def _r12a(cx, gen):
     contracts = {"fit_to_width": c_fit, "_make_table_line": c_make_table_line,
                  "make_record_ch_chunks_all": lambda it, e, p: Cells(N, SW)}
     it = WidthInterp(contracts=contracts, palette_names=(cp,), int_hook=int_hook, nonneg_syms=("Σw",), lower_bounds={"n": 1})
+    # private straight-line helpers of the table class are interpreted in place (unless a contract describes them)
+    owner = enclosing(gen, (ast.ClassDef,))
+    it.helpers = {f_.name: f_ for f_ in (owner.body if owner is not None else []) if isinstance(f_, FUNC) and f_.name.startswith("_") and f_.name not in contracts and f_ is not gen}
 
     def loop_hook(it_, st, path):
         # bind the loop variable, run the body once, havoc what the body assigns
@@ -451,6 +464,11 @@ def _r12g(cx, gen):
             k = norm(s.slice.lower.operand)
             g = any(norm(e) == k and pol for e, pol in facts(s))
             cx.ob("R12g", s, g, f"`[-{k}:]` is taken only when {k} is non-zero" if g else f"`{norm(s)}` with {k} == 0 is the whole list, not the empty one (all lines shown twice)")
+        if isinstance(s, ast.Subscript) and isinstance(s.slice, ast.Slice) and isinstance(s.slice.upper, ast.UnaryOp) and isinstance(s.slice.upper.op, ast.USub):
+            n_neg += 1
+            k = norm(s.slice.upper.operand)
+            g = any(norm(e) == k and pol for e, pol in facts(s))
+            cx.ob("R12g", s, g, f"`[..:-{k}]` is taken only when {k} is non-zero" if g else f"`{norm(s)}` with {k} == 0 is empty, not `everything up to the end` (lines / counts are lost when no last lines are requested)")
     cx.at_least("R12g", "tail slices", n_neg, 1)
     # (3) composition and count
     comp = [v for st, v in assignments(gen, lines) if v is not None and isinstance(v, ast.BinOp)]
@@ -460,8 +478,10 @@ def _r12g(cx, gen):
     ok = len(ns) == 2 and any(const(v, int) and v.value == 0 for v in ns)
     formula = next((v for v in ns if not const(v)), None)
     if ok and formula is not None:
-        t = norm(formula)
-        ok = t.startswith("len(self.records) - sum(") and "not isinstance(tl, self._ServiceLine)" in t and "(first_lines, last_lines)" in t and t.count("1 if") == 1 and "else 0" in t
+        verdict = _skipped_formula(gen, formula)
+        if verdict is None:
+            raise AnalysisError("R12g", f"{REL}::_PPTableImpl.gen_ch_lines", f"form of the skipped-records count not recognised: {norm(formula)[:80]}")
+        ok = verdict
     cx.ob("R12g", gen, ok, "skipped = total records - records among the shown lines" if ok else "the announced number of skipped records is not total - shown", stmt="n_skipped")
     lim = [s for s in gen.body if isinstance(s, ast.If) and "first_lines" in {n.id for x in s.body for n in ast.walk(x) if isinstance(n, ast.Name)}]
     ok = len(lim) == 1
@@ -568,3 +588,72 @@ def param_purity(cx, rule, funcs):
             cx.ob(rule, x, dominated, f"{f.name}: works on its own copy of `{p}`" if dominated else
                   f"{f.name}: {bad}, which may be the caller's object `{p}` (e.g. the cached rendering of an enum value, or a text's chunk list): the same value renders differently afterwards")
     cx.ob(rule, funcs[0][0], True, f"chunk-list helpers examined for in-place changes of their list parameter ({n} candidate sites)", stmt="parameter purity")
+
+
+def _skipped_formula(gen, formula):
+    """n_skipped == (number of records) - (number of shown lines that are records)?   True / False / None (not recognised).
+    Local names bound once are seen through; the count of shown records may be written as a sum over first_lines + last_lines,
+    over the pair (first_lines, last_lines) with a nested loop, with `1 if T else 0`, `T`, `int(T)` or `1 ... if T` elements,
+    T = not isinstance(line, self._ServiceLine)."""
+    def resolve(e, depth=0):
+        if isinstance(e, ast.Name) and depth < 4:
+            ds = [v for _, v in assignments(gen, e.id) if v is not None]
+            if len(ds) == 1:
+                return resolve(ds[0], depth + 1)
+        return e
+    f = resolve(formula)
+    if not (isinstance(f, ast.BinOp) and isinstance(f.op, ast.Sub)):
+        return None
+    total, shown = resolve(f.left), resolve(f.right)
+    if norm(total) != "len(self.records)":
+        return None
+    if not (isinstance(shown, ast.Call) and call_name(shown) == "sum" and len(shown.args) == 1 and isinstance(shown.args[0], (ast.GeneratorExp, ast.ListComp))):
+        return None
+    g = shown.args[0]
+    gens = g.generators
+    # the iterated lines
+    if len(gens) == 1:
+        it, var = resolve(gens[0].iter), gens[0].target
+        src = None
+        if isinstance(it, ast.BinOp) and isinstance(it.op, ast.Add):
+            src = {norm(it.left), norm(it.right)}
+        elif isinstance(it, ast.Call) and call_name(it) == "chain":
+            src = {norm(a) for a in it.args}
+        ifs = gens[0].ifs
+    elif len(gens) == 2 and isinstance(gens[0].iter, (ast.Tuple, ast.List)) and norm(gens[1].iter) == norm(gens[0].target) and not gens[0].ifs:
+        src, var, ifs = {norm(x) for x in gens[0].iter.elts}, gens[1].target, gens[1].ifs
+    else:
+        return None
+    if src is None or not isinstance(var, ast.Name):
+        return None
+    if src != {"first_lines", "last_lines"}:
+        return False      # counts over something else than exactly the shown lines
+    v = var.id
+
+    def is_rec(t):      # T
+        return isinstance(t, ast.UnaryOp) and isinstance(t.op, ast.Not) and norm(t.operand) == f"isinstance({v}, self._ServiceLine)"
+
+    def is_service(t):
+        return norm(t) == f"isinstance({v}, self._ServiceLine)"
+    e = g.elt
+    if isinstance(e, ast.Call) and call_name(e) in ("int", "bool") and len(e.args) == 1:
+        e = e.args[0]
+    if not ifs:
+        if is_rec(e):
+            return True
+        if isinstance(e, ast.IfExp) and const(e.body, int) and const(e.orelse, int):
+            if is_rec(e.test):
+                return (e.body.value, e.orelse.value) == (1, 0)
+            if is_service(e.test):
+                return (e.body.value, e.orelse.value) == (0, 1)
+        if is_service(e):
+            return False
+        if const(e, int):
+            return False      # every shown line is counted, service lines included
+        return None
+    if len(ifs) == 1 and const(e, int):
+        if is_rec(ifs[0]):
+            return e.value == 1
+        if is_service(ifs[0]):
+            return False
+    return None
